@@ -1,20 +1,30 @@
 /* C12 implementation driver: the PUBLIC muggle_aes_* / muggle_des_* / muggle_tdes_* API
  * under ASan, hex in / hex out.
  *
- *   setkey <alg> <op> <mode> <bits> <keyhex|-> [nulls]     -> setkey <ERR> [ks=<hex>]
+ *   setkey <alg> <op> <mode> <bits> <keyhex|-> [nulls]     -> setkey <ERR> ks=<hex|untouched|TOUCHED>
  *        (on success: the key schedule the call left in the public context
- *         structure - AES rd_key, DES sk, 3DES ctx1..3 - compared with the implementation-layer model)
+ *         structure - AES rd_key, DES sk, 3DES ctx1..3 - compared with the implementation-layer model;
+ *         on refusal: whether the key-schedule area of the context, pre-filled with a pattern, was left alone -
+ *         a refused set_key must not leave a half-made schedule behind)
  *        alg aes|des|tdes; op enc|dec|<int>; mode ecb|cbc|cfb|ofb|ctr|<int>;
  *        nulls: letters k (key / key1) 2 (key2) 3 (key3) c (ctx) or '-'.
  *        Starts a new phase: the outputs accumulated so far become "the previous phase".
+ *   use <slot>                                             -> (no output)
+ *        switches to context slot 0..3 (slot 0 at the start of a case).  Every slot has its own context, caller-held
+ *        chaining state and output accumulators, so two or more streams - of the same or of different algorithms -
+ *        can be fed alternately (a static scratch block or a "last key" cache in the library would mix them up).
+ *   share <slot>                                           -> (no output)
+ *        the current slot uses the SAME context object as <slot> (two streams with separate caller-held state on one
+ *        context); the context stays owned by <slot>.
  *   state <ivhex> <off> <sbhex>                            -> (no output)
  *        caller-held chaining state: iv (or the nonce's memory image), *offset, stream_block
  *   crypt <fn> <align> <nulls> <hex | - | @start:len>      -> <ERR> out=<hex|untouched> iv=<hex> off=<n> sb=<hex>
  *        fn ecb|cbc|cfb|ofb|ctr; input/output/iv buffers are exact-size heap blocks starting
  *        <align> bytes past an aligned address; nulls: letters c i o v f s (ctx, input, output,
  *        iv/nonce, offset pointer, stream block) or '-'; @start:len = slice of the previous
- *        phase's concatenated output.  The output buffer is pre-filled so that "nothing
- *        written" is observable.
+ *        phase's concatenated output; #<seed>:<len> = <len> bytes of the xorshift64* stream started at <seed> (decimal;
+ *        messages too long for a hex line: more than 65536 blocks in ONE call).  The output buffer is pre-filled so
+ *        that "nothing written" is observable.
  */
 #include "vdrv.h"
 #include "muggle/c/base/err.h"
@@ -23,16 +33,34 @@
 #include "muggle/c/crypt/tdes.h"
 
 enum { ALG_NONE = 0, ALG_AES, ALG_DES, ALG_TDES };
-static int alg, have_ctx, bs;
-static muggle_aes_context_t *actx;
-static muggle_des_context_t *dctx;
-static muggle_tdes_context_t *tctx;
-
-static unsigned char st_iv[16], st_sb[16];
-static unsigned int st_off;
-
-static unsigned char *prev_acc, *cur_acc;
-static size_t prev_len, cur_len, cur_cap;
+#define NSLOTS 4
+struct slot {
+	int alg_, have_ctx_, bs_, owner;          /* owner: slot index that allocated the context (-1: none) */
+	muggle_aes_context_t *actx_;
+	muggle_des_context_t *dctx_;
+	muggle_tdes_context_t *tctx_;
+	unsigned char st_iv_[16], st_sb_[16];
+	unsigned int st_off_;
+	unsigned char *prev_acc_, *cur_acc_;
+	size_t prev_len_, cur_len_, cur_cap_;
+};
+static struct slot slots[NSLOTS];
+static int cur_slot;
+#define S (&slots[cur_slot])
+#define alg (S->alg_)
+#define have_ctx (S->have_ctx_)
+#define bs (S->bs_)
+#define actx (S->actx_)
+#define dctx (S->dctx_)
+#define tctx (S->tctx_)
+#define st_iv (S->st_iv_)
+#define st_sb (S->st_sb_)
+#define st_off (S->st_off_)
+#define prev_acc (S->prev_acc_)
+#define cur_acc (S->cur_acc_)
+#define prev_len (S->prev_len_)
+#define cur_len (S->cur_len_)
+#define cur_cap (S->cur_cap_)
 
 #define FILL 0xA5
 
@@ -86,22 +114,64 @@ static int parse_mode(const char *s)
 	return atoi(s);
 }
 
+/* drops the context of the current slot; a context owned by this slot is freed and every slot sharing it loses it */
 static void free_ctx(void)
 {
-	free(actx); free(dctx); free(tctx);
+	if (S->owner == cur_slot) {
+		for (int i = 0; i < NSLOTS; i++)
+			if (i != cur_slot && slots[i].owner == cur_slot) {
+				slots[i].actx_ = NULL; slots[i].dctx_ = NULL; slots[i].tctx_ = NULL;
+				slots[i].have_ctx_ = 0; slots[i].alg_ = ALG_NONE; slots[i].owner = -1;
+			}
+		free(actx); free(dctx); free(tctx);
+	}
 	actx = NULL; dctx = NULL; tctx = NULL;
-	have_ctx = 0; alg = ALG_NONE;
+	have_ctx = 0; alg = ALG_NONE; S->owner = -1;
 }
 static void case_begin(void)
 {
-	free_ctx();
-	free(prev_acc); free(cur_acc);
-	prev_acc = cur_acc = NULL;
-	prev_len = cur_len = cur_cap = 0;
-	memset(st_iv, 0, sizeof(st_iv)); memset(st_sb, 0, sizeof(st_sb)); st_off = 0;
-	bs = 16;
+	for (cur_slot = 0; cur_slot < NSLOTS; cur_slot++) {
+		free_ctx();
+		free(prev_acc); free(cur_acc);
+		prev_acc = cur_acc = NULL;
+		prev_len = cur_len = cur_cap = 0;
+		memset(st_iv, 0, sizeof(st_iv)); memset(st_sb, 0, sizeof(st_sb)); st_off = 0;
+		bs = 16;
+	}
+	cur_slot = 0;
 }
 static void case_end(void) { case_begin(); }
+
+static void do_use(char *line)
+{
+	int k = -1;
+	if (sscanf(line, "%*s %d", &k) == 1 && k >= 0 && k < NSLOTS) cur_slot = k;
+}
+static void do_share(char *line)
+{
+	int k = -1;
+	if (sscanf(line, "%*s %d", &k) != 1 || k < 0 || k >= NSLOTS || k == cur_slot) return;
+	/* new phase in this slot, on the other slot's context object */
+	free(prev_acc);
+	prev_acc = cur_acc; prev_len = cur_len;
+	cur_acc = NULL; cur_len = cur_cap = 0;
+	free_ctx();
+	if (!slots[k].have_ctx_ || slots[k].owner != k) return;
+	alg = slots[k].alg_; bs = slots[k].bs_; have_ctx = 1; S->owner = k;
+	actx = slots[k].actx_; dctx = slots[k].dctx_; tctx = slots[k].tctx_;
+}
+
+/* xorshift64* byte stream (same in the model driver and in the monitor) */
+static void prng_fill(unsigned char *p, size_t n, uint64_t seed)
+{
+	uint64_t x = seed ? seed : 0x9E3779B97F4A7C15ULL;
+	size_t i = 0;
+	while (i < n) {
+		x ^= x >> 12; x ^= x << 25; x ^= x >> 27;
+		uint64_t v = x * 2685821657736338717ULL;
+		for (int b = 0; b < 8 && i < n; b++, i++) p[i] = (unsigned char)(v >> (8 * b));
+	}
+}
 
 static void acc_append(const unsigned char *p, size_t n)
 {
@@ -112,6 +182,13 @@ static void acc_append(const unsigned char *p, size_t n)
 	}
 	memcpy(cur_acc + cur_len, p, n);
 	cur_len += n;
+}
+
+static int all_fill(const void *p, size_t n)
+{
+	const unsigned char *b = (const unsigned char *)p;
+	for (size_t i = 0; i < n; i++) if (b[i] != FILL) return 0;
+	return 1;
 }
 
 static void do_setkey(char *line)
@@ -134,15 +211,18 @@ static void do_setkey(char *line)
 	    nc = strchr(nulls, 'c') != NULL;
 	if (strcmp(a, "aes") == 0) {
 		alg = ALG_AES; bs = 16;
-		actx = (muggle_aes_context_t *)calloc(1, sizeof(*actx));
+		actx = (muggle_aes_context_t *)malloc(sizeof(*actx));
+		memset(actx, FILL, sizeof(*actx));
 		rc = muggle_aes_set_key(op, mode, nk ? NULL : key, bits, nc ? NULL : actx);
 	} else if (strcmp(a, "des") == 0) {
 		alg = ALG_DES; bs = 8;
-		dctx = (muggle_des_context_t *)calloc(1, sizeof(*dctx));
+		dctx = (muggle_des_context_t *)malloc(sizeof(*dctx));
+		memset(dctx, FILL, sizeof(*dctx));
 		rc = muggle_des_set_key(op, mode, nk ? NULL : key, nc ? NULL : dctx);
 	} else {
 		alg = ALG_TDES; bs = 8;
-		tctx = (muggle_tdes_context_t *)calloc(1, sizeof(*tctx));
+		tctx = (muggle_tdes_context_t *)malloc(sizeof(*tctx));
+		memset(tctx, FILL, sizeof(*tctx));
 		/* three separate exact-size key blocks */
 		unsigned char *k1 = (unsigned char *)malloc(8), *k2 = (unsigned char *)malloc(8), *k3 = (unsigned char *)malloc(8);
 		memset(k1, 0, 8); memset(k2, 0, 8); memset(k3, 0, 8);
@@ -153,6 +233,7 @@ static void do_setkey(char *line)
 		free(k1); free(k2); free(k3);
 	}
 	have_ctx = (rc == 0);
+	S->owner = cur_slot;
 	printf("setkey %s", errname(rc));
 	if (rc == 0 && alg == ALG_AES) { printf(" ks="); puthex((const unsigned char *)actx->sk.rd_key, (size_t)(actx->sk.rounds + 1) * 16); }
 	if (rc == 0 && alg == ALG_DES) { printf(" ks="); puthex((const unsigned char *)&dctx->sk, sizeof(dctx->sk)); }
@@ -160,6 +241,14 @@ static void do_setkey(char *line)
 		printf(" ks="); puthex((const unsigned char *)&tctx->ctx1.sk, sizeof(tctx->ctx1.sk));
 		puthex((const unsigned char *)&tctx->ctx2.sk, sizeof(tctx->ctx2.sk));
 		puthex((const unsigned char *)&tctx->ctx3.sk, sizeof(tctx->ctx3.sk));
+	}
+	if (rc != 0) {
+		int touched = 0;
+		if (alg == ALG_AES) touched = !all_fill(&actx->sk, sizeof(actx->sk));
+		if (alg == ALG_DES) touched = !all_fill(&dctx->sk, sizeof(dctx->sk));
+		if (alg == ALG_TDES) touched = !all_fill(&tctx->ctx1.sk, sizeof(tctx->ctx1.sk)) ||
+			!all_fill(&tctx->ctx2.sk, sizeof(tctx->ctx2.sk)) || !all_fill(&tctx->ctx3.sk, sizeof(tctx->ctx3.sk));
+		printf(touched ? " ks=TOUCHED" : " ks=untouched");
 	}
 	printf("\n");
 	free(key); free(khex);
@@ -195,6 +284,12 @@ static void do_crypt(char *line)
 		if (sscanf(dh + 1, "%lu:%lu", &s, &l) != 2 || s + l > prev_len) { printf("badslice\n"); free(dh); return; }
 		data = (unsigned char *)malloc(l ? l : 1);
 		if (l) memcpy(data, prev_acc + s, l);
+		len = l;
+	} else if (dh[0] == '#') {
+		unsigned long long seed = 0; unsigned long l = 0;
+		if (sscanf(dh + 1, "%llu:%lu", &seed, &l) != 2 || l > (1ul << 26)) { printf("badslice\n"); free(dh); return; }
+		data = (unsigned char *)malloc(l ? l : 1);
+		prng_fill(data, l, (uint64_t)seed);
 		len = l;
 	} else {
 		data = unhex(dh, &len);
@@ -264,7 +359,9 @@ done:
 
 static void case_line(char *line)
 {
-	if (strncmp(line, "setkey ", 7) == 0) do_setkey(line);
+	if (strncmp(line, "use ", 4) == 0) do_use(line);
+	else if (strncmp(line, "share ", 6) == 0) do_share(line);
+	else if (strncmp(line, "setkey ", 7) == 0) do_setkey(line);
 	else if (strncmp(line, "state ", 6) == 0) do_state(line);
 	else if (strncmp(line, "crypt ", 6) == 0) do_crypt(line);
 }
